@@ -444,6 +444,37 @@ def tok_text(r, level=0, extra=None):
     return s
 
 
+def def_to_dtoks(d, extra=None):
+    """definition (lexdef form) -> definition-level token text for the model (DTOKS)"""
+    out = []
+
+    def rule_toks(r):
+        t = tok_text(r['re'], 0, extra)
+        if r['ctx'] is not None:
+            t += " o3 " + tok_text(r['ctx'], 0, extra)
+        k = r['kind'].split(":")[0]
+        if k == 'alt':
+            k = 'fal' if r['kind'].split(":")[1] == '1' else 'inf'
+        t += {"skip": " o0", "simple": " o1 o10 o0", "inf": " o4 o10 o0", "fal": " o1 ? o10 o0"}[k]
+        return t
+    for top in d:
+        if top[0] == 'errtype':
+            out.append("itype iError o1 o10 o2")
+        elif top[0] == 'let':
+            out.append("ilet i%s o1 %s o2" % (top[1], tok_text(top[2], 0, extra)))
+        elif top[0] == 'rule':
+            out.append(rule_toks(top[1]))
+        elif top[0] == 'ruleset':
+            body = []
+            for it in top[2]:
+                if it[0] == 'let':
+                    body.append("ilet i%s o1 %s o2" % (it[1], tok_text(it[2], 0, extra)))
+                else:
+                    body.append(rule_toks(it[1]))
+            out.append("irule i%s { %s }" % (top[1], " ".join(body)))
+    return " ".join(out)
+
+
 def toks_to_rust(toks):
     out = []
     for w in toks.split():
@@ -454,7 +485,7 @@ def toks_to_rust(toks):
         elif w[0] == 'i':
             out.append(w[1:])
         elif w[0] == 'o':
-            out.append({"0": ",", "1": "=", "2": ";", "3": ">"}.get(w[1:], ","))
+            out.append({"0": ",", "1": "=", "2": ";", "3": ">", "4": "=>", "10": "x"}.get(w[1:], ","))
         else:
             out.append(w)
     s = " ".join(out)
@@ -562,6 +593,8 @@ def check_C16(ctx):
                                                         "perturbed_token_lists": sum(1 for i in items if i[2] != "print"),
                                                         "roundtrips_ok": nrt, "accepted": nok})
     ctx.sample({"tokens": items[0][1], "real_parser": impl[0]})
+    # the definition-level grammar (rule sets, lets, right-hand-side forms, error type)
+    check_def_grammar(ctx)
     # lets: factoring subtrees into variables, scoping
     check_lets(ctx)
 
@@ -616,6 +649,58 @@ def eoi_safe_p(r):
 
 def contains_eoi_then_dollar(r):
     return not eoi_safe_p(r)
+
+
+def check_def_grammar(ctx, only_malformed=False):
+    """real make_lexer_parser vs the model DefParser.parse_def on printed definitions and on perturbed
+    token streams (ill-formed ones included): same verdict, same AST"""
+    rng = random.Random(ctx.seed + 11)
+    n = 120 if ctx.tier == "quick" else 1500
+    gen = lexdef.Gen(ctx.seed + 11, max_rules=3, max_depth=2, p_named=0.6, p_ctx=0.3, p_fallible=0.4, p_template=0.0)
+    items = []
+    pool = ["c97", "s98", "[", "]", "(", ")", "$", "_", "|", "*", "+", "?", "#", "-", "ix", "ilet", "irule", "itype",
+            "iError", "o0", "o1", "o2", "o3", "o4", "o10", "{", "}"]
+    while len(items) < n:
+        d = gen.definition()
+        toks = def_to_dtoks(d, None if rng.random() < 0.6 else (lambda: rng.random() < 0.2))
+        if not only_malformed:
+            items.append((toks, "printed"))
+        ws = toks.split()
+        for _ in range(rng.randint(1, 2)):
+            j = rng.randrange(len(ws) + 1)
+            if rng.random() < 0.55 and ws:
+                del ws[min(j, len(ws) - 1)]
+            else:
+                ws.insert(j, rng.choice(pool))
+        depth, ok = [], True
+        for w in ws:
+            if w in "([{":
+                depth.append(w)
+            elif w in ")]}":
+                if not depth or {"(": ")", "[": "]", "{": "}"}[depth.pop()] != w:
+                    ok = False
+                    break
+        if ok and not depth:
+            items.append((" ".join(ws), "perturbed"))
+    cmds_m = "".join("DTOKS %s\n" % t for t, _ in items)
+    cmds_i = "".join("PARSE L -> T; %s\n" % toks_to_rust(t) for t, _ in items)
+    model = run_lexmodel(cmds_m).split("\n")
+    impl = run_incrate_driver("lexgen", cmds_i).split("\n")
+    nok = nrej = 0
+    for (toks, kind), a, m in zip(items, impl, model):
+        ctx.coverage["evaluations"] += 1
+        if a == "PANIC":
+            a = "ERR"          # the parser panics on some malformed right-hand sides: a rejection
+        if a != m:
+            ctx.violation("def-parser-differs", {"tokens": toks, "rust_source": "L -> T; " + toks_to_rust(toks),
+                                                 "real_parser": a, "model_parser": m, "kind": kind})
+            continue
+        if kind == "printed" and a == "ERR":
+            ctx.violation("def-roundtrip", {"tokens": toks, "rust_source": toks_to_rust(toks), "real_parser": a})
+        nok += a.startswith("OK")
+        nrej += a == "ERR"
+    ctx.coverage.setdefault("distribution", {}).update({"def_token_streams": len(items), "def_accepted": nok,
+                                                        "def_rejected_by_both": nrej})
 
 
 def subst(r, env):
@@ -883,6 +968,7 @@ def check_C17(ctx):
         if rc == 0:
             ctx.violation("accepted:syntax:" + nm, {"violation": "malformed syntax (%s)" % nm, "source": src[src.index("lexer! {"):][:1500]})
     shutil.rmtree(work, ignore_errors=True)
+    check_def_grammar(ctx, only_malformed=True)
     ctx.coverage["programs"] += len(cases) + len(syn)
     ctx.coverage["distinct_nontrivial"] += len(by_kind)
     ctx.coverage["rule"] = ("well-formed random definitions with ONE injected static violation at a random position (14 kinds) "
